@@ -124,10 +124,12 @@ def gen_case(rnd, spec):
         if g > 0 and rnd.random() < 0.3:
             gens[-1]["reuse_runner"] = True  # the very same runner instance accepts once more
     inject = common.inject_conf(rnd, 0.8)
-    if rnd.random() < 0.4:
+    doubles = any(g["meta"]["ending"] == "shutdown_double" for g in gens)
+    if rnd.random() < (0.75 if doubles else 0.3):
         # stretch the windows inside stop(): a second shutdown may find the runner or the loop already gone
         inject = inject or {"seed": rnd.randint(0, 10**6), "p_yield": 0.2, "p_sleep": 0.0}
-        inject["hot"] = {rnd.choice(["BaseRunner.stop", "MetaRunner.stop", "ServiceRunner.shutdown"]): rnd.choice([0.03, 0.1, 0.3])}
+        where = rnd.choice(["BaseRunner.stop", "BaseRunner.stop", "MetaRunner.stop", "ServiceRunner.shutdown"])
+        inject["hot"] = {where: rnd.choice([0.1, 0.3])}
     return {"watchdog": 45, "inject": inject, "generations": gens,
             "meta": {"endings": [g["meta"]["ending"] for g in gens]}}
 
